@@ -38,6 +38,7 @@ type ConcCase struct {
 	Procs    []ConcProc `json:"procs"`
 	Schedule []string   `json:"schedule"`
 	Gates    []string   `json:"gates"`
+	Frozen   bool       `json:"frozen"` // the physical clock stands still: every CAS is its predecessor + 1
 }
 
 // FeedObs is what one feed run delivered.
@@ -170,6 +171,10 @@ func (cr *concRunner) startFeed(id string, coll string, fs FeedSpec) error {
 // runCase executes one case; returns its trace.
 func runConcCase(env *seqEnv, trNo int, cc *ConcCase) (*Trace, error) {
 	tr := &Trace{}
+	if cc.Frozen {
+		rosmar.VerifSetGlobalClock(func() uint64 { return 1 << 20 })
+		defer rosmar.VerifSetGlobalClock(nil)
+	}
 	suffix := fmt.Sprintf(".q%d", trNo)
 	absKey := absKeyFn(suffix)
 	info := map[string]*KeyInfo{}
